@@ -72,7 +72,8 @@ def cases(draw, tier):
             "generated_by": draw(c02.ANYTEXT1.filter(lambda s: s.strip())
                                  if container == "json" else gen._H5TEXT1),
             "date": c01.date_to_json(draw(NAIVE_DATES)),
-            "double": [draw(st.integers(0, 200)), draw(st.integers(0, 200))]}
+            "double": [draw(st.integers(0, 200)), draw(st.integers(0, 200))],
+            "sub": draw(st.sampled_from([False] * 30 + [True]))}
 
 
 def strategy(tier):
@@ -82,8 +83,9 @@ def strategy(tier):
 # ---------------------------------------------------------------------------
 # running the validator
 
-def verdict(path):
-    """'valid' | 'invalid' | 'error' through the command and the function."""
+def verdict(path, sub=False):
+    """'valid' | 'invalid' | 'error' through the command and the function
+    (sub=True: additionally through a real `biom validate-table` process)."""
     from biom.cli.table_validator import validate_table, _validate_table
     import io
     import contextlib
@@ -103,6 +105,17 @@ def verdict(path):
         v2 = "error"
     out = buf.getvalue()
     says_valid = "is a valid BIOM-formatted file" in out
+    if sub:
+        from ..cli import invoke
+        rc, out2 = invoke(validate_table, "validate-table", ["-i", path],
+                          True)
+        v3 = "valid" if rc == 0 else "invalid"
+        if v2 != "error" and v3 != v2:
+            raise Violation("process-and-command-disagree", "biom "
+                            "validate-table exits %r, in-process verdict %r"
+                            % (rc, v2))
+        says_valid = says_valid or \
+            "is a valid BIOM-formatted file" in out2
     return v1, v2, says_valid
 
 
@@ -615,7 +628,7 @@ def check(case, rec):
             with h5py.File(base, "w") as f:
                 t.to_hdf5(f, gby, creation_date=date)
         # (A) what the library writes is valid
-        v = verdict(base)
+        v = verdict(base, sub=case.get("sub", False))
         if v != ("valid", "valid", True):
             raise Violation("library-output-not-valid", "%s written by the "
                             "library: verdict %r" % (container, v))
@@ -659,7 +672,8 @@ def check(case, rec):
             classes = {c for _, c, _ in names_fns}
             for c in classes:
                 rec.cls("mut-class:" + c)
-            v = verdict(p)
+            v = verdict(p, sub=case.get("sub", False) and
+                        len(applied) % 17 == 0)
             says_valid = v[0] == "valid" or v[1] == "valid" or v[2]
             applied.append(label)
             if classes & MUST_REJECT and says_valid:
